@@ -33,17 +33,18 @@ func (fi *FuncInfo) Body() *ast.BlockStmt {
 func (fi *FuncInfo) FullKey() string { return fi.Pkg.PkgPath + "::" + fi.Key }
 
 type Prog struct {
-	u      *Universe
-	fset   *token.FileSet
-	pkgs   map[string]*packages.Package
-	all    map[string]*packages.Package // including deps
-	con    *Contracts
-	funcs  map[string]*FuncInfo // FullKey -> info
-	byObj  map[*types.Func]*FuncInfo
-	byLit  map[*ast.FuncLit]*FuncInfo
-	repo   string
-	seed   int
-	assume []string // assumptions gathered for evidence
+	u       *Universe
+	fset    *token.FileSet
+	pkgs    map[string]*packages.Package
+	all     map[string]*packages.Package // including deps
+	con     *Contracts
+	funcs   map[string]*FuncInfo // FullKey -> info
+	byObj   map[*types.Func]*FuncInfo
+	byLit   map[*ast.FuncLit]*FuncInfo
+	repo    string
+	specDir string
+	seed    int
+	assume  []string // assumptions gathered for evidence
 }
 
 func LoadProg(repo string, specDirs []string) (*Prog, error) {
@@ -118,6 +119,7 @@ func LoadProg(repo string, specDirs []string) (*Prog, error) {
 		}
 	}()
 	for _, dir := range specDirs {
+		p.specDir = dir
 		files, _ := filepath.Glob(filepath.Join(dir, "*.gvs"))
 		sort.Strings(files)
 		for _, f := range files {
